@@ -156,6 +156,19 @@ CLAIMED = {
               'legal sizes) and independently packed channel blocks go through EntryBlockSet.lisBytes() -> LrDFSRRead.'),
         note='Trusts TLC and the harness encoders (struct packing per LIS-79); an empty byte cell may read back as None.',
         technique='TLA+ spec + TLC model checking; one implementation test per terminal state of the model'),
+    'C06': dict(
+        category='model_checking', design='3/C06',
+        text=('TLC explores every event plan accepted by the frame-load interpreter (LisFrames.tla: seek / read / skip / '
+              'extrapolate with a cursor inside the data record) for a set of small cases and checks that an accepted plan '
+              'loads only requested cells at their true byte positions, gives every row its true implied X and visits only '
+              'records holding requested frames; generated LIS files (explicit / implied X, up / down, 1..5 channels of every '
+              'supported representation code with samples and bursts, record patterns with a short last record, random '
+              'physical layout) are indexed and loaded by the real FileIndex / LogPass with several (slice, channel subset) '
+              'loads per LogPass object; the real event plan, rows, implied X values, seekLr targets and the index entries are '
+              'validated by TLC against LisFramesTrace.tla and the matrix is compared with the recorded values.'),
+        note=('The planner itself is not transcribed: its real output is validated as a trace. Known finding F11 (implied X after a '
+              'record change) is recognised by exact emulation. Slices are bounded ones with step >= 1 (API restriction).'),
+        technique='TLA+ spec + TLC model checking of the plan interpreter; TLC trace validation of real plans and results'),
 }
 
 NOT_YET = 'check not built yet in this session; planned per DESIGN.md section 3'
